@@ -277,7 +277,13 @@ def run_schedule(name, strategy, line_level, res, rc):
             res.violate("deadlock", "%s: %s" % (what, s.deadlock), witness=name, replay_case=rc)
             return s
         if s.livelock or not ok:
-            res.violate("no-progress", "%s: threads did not finish (%d scheduling points)" % (what, s.npoints), replay_case=rc)
+            stuck = getattr(s, "stuck", None)
+            res.stop = _st["stuck_seen"] = True   # (every further schedule would wait for the watchdog again)
+            if stuck and stuck["same_position"]:
+                res.violate("thread-left-blocked", "%s: thread %s holds the turn and stayed at one position for the whole watchdog period (every other thread is finished or parked "
+                            "by the scheduler, so nothing can wake it): %s" % (what, stuck["thread"], " <- ".join(stuck["stack"][:5])), witness=name, replay_case=rc)
+            else:
+                res.violate("no-progress", "%s: threads did not finish (%d scheduling points)" % (what, s.npoints), replay_case=rc)
             return s
         for t in s.threads:
             if t.exc is not None:
@@ -353,6 +359,8 @@ def explore_dfs(name, line_level, bound, res, limit, part=None):
             # is the forced prefix realisable at all?  (an option index beyond the options falls back to 0)
             pass
         run_schedule(name, st, line_level, res, rc)
+        if getattr(res, "stop", False):
+            return n + 1, False
         if part and [c for _, c, _ in st.decisions[: len(part)]] != list(part):
             res.evaluations -= 1
             return n, True  # this part does not exist: its schedules belong to another part
@@ -465,7 +473,10 @@ def run_render_schedule(strategy, res, rc, nthreads=2, free=False):
         res.count("render_schedules")
         res.count("context_switches", sum(1 for a, b in zip(s.trace, s.trace[1:]) if a[0] != b[0]))
         if s.deadlock or s.livelock or not ok:
-            res.violate("render-no-progress", "concurrent renders did not finish: %s" % (s.deadlock or "livelock"), replay_case=rc)
+            stuck = getattr(s, "stuck", None)
+            res.stop = _st["stuck_seen"] = True
+            res.violate("render-no-progress", "concurrent renders did not finish: %s%s" % (s.deadlock or "livelock", (
+                "; thread %s stayed at %s" % (stuck["thread"], " <- ".join(stuck["stack"][:5]))) if stuck and stuck["same_position"] else ""), replay_case=rc)
             return
         if sum(1 for a, b in zip(s.trace, s.trace[1:]) if a[0] != b[0]) >= 2:
             res.nontrivial("c16r", tuple(c for _, c, _ in strategy.decisions))
@@ -873,6 +884,10 @@ def run_case(case):
     res = common.CaseResult()
     register_cache()
     k = case["kind"]
+    if _st.get("stuck_seen"):
+        # a thread of an earlier case of this worker is still blocked inside the library: reported there
+        res.count("cases_skipped_after_a_blocked_thread")
+        return res
     if k == "coarse":
         n, complete = explore_dfs(case["scenario"], False, case["bound"], res, limit=case.get("limit", 400000), part=case["part"])
         res.count("coarse_schedules_exhaustive", n)
@@ -889,6 +904,8 @@ def run_case(case):
             st = sched.RandomPriority(common.rng_for(r.random()), len(SCENARIOS[case["scenario"]][1]), depth=r.choice([1, 2, 3]), steps=300)
             run_schedule(case["scenario"], st, True, res, {"kind": "norreplay"})
             res.count("line_level_schedules")
+            if getattr(res, "stop", False):
+                break
         res.count("line_events", _st["hook"].events)
         _st["hook"].events = 0
     elif k == "render-random":
@@ -896,6 +913,8 @@ def run_case(case):
         for j in range(case["n"]):
             st = sched.RandomPriority(common.rng_for(r.random()), case["threads"], depth=r.choice([1, 2, 4]), steps=3000)
             run_render_schedule(st, res, {"kind": "norreplay"}, nthreads=case["threads"])
+            if getattr(res, "stop", False):
+                break
         res.count("line_events", _st["hook"].events)
         _st["hook"].events = 0
         res.sample = {"kind": "render", "threads": case["threads"]}
@@ -904,6 +923,8 @@ def run_case(case):
         for _ in range(case["limit"]):
             st = sched.DFS(prefix, case["bound"])
             run_render_schedule(st, res, {"kind": "render-replay", "prefix": prefix, "bound": case["bound"]})
+            if getattr(res, "stop", False):
+                break
             prefix = st.next_prefix()
             if prefix is None:
                 res.count("render_dfs_complete")
